@@ -365,6 +365,13 @@ var routePool = []string{
 	"/", "/a", "/a/:x", "/b/:x/:y", "/u/:a/:b", "/u/:a", "/c/:p/:q/:r/:s", "/files/*", "/d/:x/*", "/:y", "/:y/z", "/e/:k/f/:x", "/*", "/g/:n/:m/*", "/a/b", "/h/:x/:y/:z",
 }
 
+var widePool = []string{
+	// wide routes: the same number of parameters under other names, the same names in another order, one more, and a
+	// tail (whatever a Store remembers about the parameters of its last request - an index, a high-water mark)
+	"/w/:a/:b/:c/:d/:e/:f/:g/:h/:i", "/v/:i/:h/:g/:f/:e/:d/:c/:b/:a", "/t/:p1/:p2/:p3/:p4/:p5/:p6/:p7/:p8/:p9", "/s/:a/:b/:c/:d/:e/:f/:g/:h/:i/:j", "/r/:p9/:p8/:p7/:p6/:p5/:p4/:p3/:p2/:p1/*",
+	"/q/:k1/:k2/:k3/:k4/:k5/:k6/:k7/:k8/:k9/:k10/:k11/:k12/:k13/:k14/:k15/:k16/:k17",
+}
+
 func genPathFor(routes []rm.Route) *rapid.Generator[string] {
 	match := rapid.Custom(func(t *rapid.T) string {
 		if len(routes) == 0 {
@@ -389,7 +396,10 @@ func genPathFor(routes []rm.Route) *rapid.Generator[string] {
 		return sb.String()
 	})
 	miss := rapid.SampledFrom([]string{"/nope", "/u/1/2/3", "/b/1", "/c/1/2/3", "/a/b/c", "/zzz/1/2/3/4/5", "", "/u//", "/e/1/g/2", "/h/1/2"})
-	return rapid.OneOf(match, match, match, miss)
+	// request targets that are not rooted paths: the asterisk form of OPTIONS, what a client that forgets the slash
+	// sends. Which handler they reach is not this property's business; what the next request finds in its Store is.
+	odd := rapid.SampledFrom([]string{"*", "a", "a/b", "u/1/2", "*/", ":x", "files/t", "\\a", "?"})
+	return rapid.OneOf(match, match, match, match, match, miss, miss, odd)
 }
 
 func runMachine(t *rapid.T, concurrent bool) {
@@ -410,6 +420,9 @@ func runMachine(t *rapid.T, concurrent bool) {
 		// a pattern may be registered again under another method: in particular the exact method after requests have
 		// already been served through the pattern's '*' route (or the other way round)
 		p := rapid.SampledFrom(routePool).Draw(t, "pattern")
+		if rapid.IntRange(0, 3).Draw(t, "wideRoute") == 0 {
+			p = rapid.SampledFrom(widePool).Draw(t, "widePattern")
+		}
 		if len(tb.routes) > 0 && rapid.IntRange(0, 2).Draw(t, "samePatternOtherMethod") == 0 {
 			p = tb.routes[rapid.IntRange(0, len(tb.routes)-1).Draw(t, "which")].Pattern
 			if rapid.Bool().Draw(t, "otherParameterNames") {
@@ -484,7 +497,7 @@ func runMachine(t *rapid.T, concurrent bool) {
 	requestOnOtherMux := func(t *rapid.T) {
 		if tb2 == nil {
 			tb2 = newTable(rapid.IntRange(0, 2).Draw(t, "relayMode2"))
-			for _, p := range rapid.SliceOfNDistinct(rapid.SampledFrom(routePool), 1, 4, func(s string) string { return s }).Draw(t, "routes2") {
+			for _, p := range rapid.SliceOfNDistinct(rapid.OneOf(rapid.SampledFrom(routePool), rapid.SampledFrom(routePool), rapid.SampledFrom(widePool)), 1, 4, func(s string) string { return s }).Draw(t, "routes2") {
 				r, ok := rm.NewRoute(p, "*")
 				if !ok {
 					t.Fatalf("pool route invalid: %s", p)
